@@ -46,7 +46,7 @@ CFGS = {
                        st.sampled_from([70000, 10**6, CEIL, 2**40]), st.sampled_from([0, 1, 3, 15, 1023])),
     "hh": st.builds(lambda w, d, m, phi, at: {"kind": "hh", "width": w, "depth": d, "max_key_len": m, "phi": phi, **({"argtype": at} if at else {})}, st.sampled_from([1, 1, 2, 3, 8, 70]), st.integers(1, 4),
                     st.integers(1, 16), st.sampled_from([None, None, 0.01, 0.5, 1.0]), st.sampled_from([None, None, None, "u8", "i8", "u32", "i64", "u64", "i32"])),
-    "hll": st.builds(lambda p, s: {"kind": "hll", "p": p, "seed": s}, st.integers(7, 16), SEEDS),
+    "hll": st.builds(lambda p, s, at: {"kind": "hll", "p": p, "seed": s, **({"argtype": at} if at else {})}, st.integers(7, 16), SEEDS, st.sampled_from([None, None, None, "u8", "i8", "u16", "i64", "u64", "i32"])),
 }
 DEFAULTS = {"log8": (CEIL, 15), "log16": (CEIL, 1023)}
 
@@ -131,9 +131,11 @@ def compare(a, b, kind, U, stage):
             qb = sorted((k, int(c)) for k, c in sut(b.query, 10**9, t))
             if qa != qb:
                 raise Violation(f"{stage}: query(inf,{t}) differs: {qa[:4]} vs {qb[:4]}", "query-differs")
-            ta, tb = [int(c) for _, c in sut(a.query, 3, t)], [int(c) for _, c in sut(b.query, 3, t)]
-            if ta != tb:
-                raise Violation(f"{stage}: query(3,{t}) counts differ: {ta} vs {tb}", "query-differs")
+            for kq in (1, 2, 3, 10**9):
+                la = [(k, int(c)) for k, c in sut(a.query, kq, t)]
+                lb = [(k, int(c)) for k, c in sut(b.query, kq, t)]
+                if la != lb:  # both answers come from the same scan of equal tables, so even ties are ordered alike
+                    raise Violation(f"{stage}: query({kq},{t}) differs: {la[:4]} vs {lb[:4]}", "query-differs")
     else:
         if not (sut(a.query) == sut(b.query)):
             raise Violation(f"{stage}: query() differs", "query-differs")
